@@ -323,6 +323,17 @@ static void ev_hash(uint32_t pc) {
     g_res->events++;
 }
 
+// conflict discovery: which bytes of the library's own static storage does a call write (or touch atomically)?  Recorded in
+// sequential mode only; two inputs that touch the same bytes are candidates for a focused concurrent exploration.
+static bool g_rec_on = false; static std::vector<uint64_t> g_rec;
+static inline void rec_static(uintptr_t a) {
+    if (!g_rec_on) return;
+    if (__start_eavdata && a >= (uintptr_t)__start_eavdata && a < (uintptr_t)__stop_eavdata) g_rec.push_back((uint64_t)(a - (uintptr_t)__start_eavdata));
+    else if (__start_eavbss && a >= (uintptr_t)__start_eavbss && a < (uintptr_t)__stop_eavbss) g_rec.push_back((1ULL << 40) | (uint64_t)(a - (uintptr_t)__start_eavbss));
+}
+void record_static_accesses(bool on) { g_rec_on = on; g_rec.clear(); }
+std::vector<uint64_t> take_recorded() { std::vector<uint64_t> r; r.swap(g_rec); std::sort(r.begin(), r.end()); r.erase(std::unique(r.begin(), r.end()), r.end()); return r; }
+
 static void on_access(uintptr_t a, size_t n, bool is_write, uintptr_t pc_abs) {
     if (!active()) return;
     RtGuard rg_;
@@ -330,7 +341,7 @@ static void on_access(uintptr_t a, size_t n, bool is_write, uintptr_t pc_abs) {
     if (a >= me.stack_lo && a < me.own_hi) return;          // own stack frames
     if (is_readonly(a)) return;
     if (repeat_read(a, n, is_write, pc_abs)) return;
-    if (g_mode == 1) { g_seq_steps++; note_event(a, n, is_write, pc_abs); return; }
+    if (g_mode == 1) { g_seq_steps++; if (is_write) rec_static(a); note_event(a, n, is_write, pc_abs); return; }
     uint32_t pc = (uint32_t)(pc_abs - g_base);
     g_hot = (__start_eavdata && a >= (uintptr_t)__start_eavdata && a < (uintptr_t)__stop_eavdata) || (__start_eavbss && a >= (uintptr_t)__start_eavbss && a < (uintptr_t)__stop_eavbss);
     sched_point();
@@ -348,7 +359,7 @@ static void on_range(const void *p, size_t n, bool is_write, uintptr_t pc_abs) {
     if (a >= me.stack_lo && a < me.own_hi) return;
     if (is_readonly(a)) return;
     if (repeat_read(a, n, is_write, pc_abs)) return;
-    if (g_mode == 1) { g_seq_steps++; note_event(a, n, is_write, pc_abs); return; }
+    if (g_mode == 1) { g_seq_steps++; if (is_write) rec_static(a); note_event(a, n, is_write, pc_abs); return; }
     uint32_t pc = (uint32_t)(pc_abs - g_base);
     sched_point();
     ev_hash(pc);
@@ -656,7 +667,7 @@ void __tsan_external_read(void *, void *, void *) {} void __tsan_external_write(
 static void atomic_point(const volatile void *a, uintptr_t pc) {
     if (!active()) return;
     RtGuard rg_;
-    if (g_mode == 1) { g_seq_steps++; return; }
+    if (g_mode == 1) { g_seq_steps++; rec_static((uintptr_t)a); return; }
     g_hot = true; g_spin_event = true; g_spin_pc = pc; sched_point(); g_spin_event = false; g_hot = false; ev_hash((uint32_t)(pc - g_base)); g_res->atomic_ops++;
     sync_acquire((const void *)a); sync_release((const void *)a);
 }
